@@ -34,15 +34,33 @@ type RevAPI struct {
 	Missing func(context.Context, int) (int, error)
 	Nest    func(context.Context, int) (int, error)
 	Note    func(int) `notify:"true"`
+	// Stubborn's client-side handler does not look at its context: it outlives the connection it was called on
+	Stubborn func(context.Context, int) (int, error)
 }
 
 type ctl struct {
 	mu      sync.Mutex
 	entered map[int]int
 	rel     map[int]chan struct{}
+	how     map[int]string // why a Slow handler returned: released | cancelled | timeout
 }
 
-func newCtl() *ctl { return &ctl{entered: map[int]int{}, rel: map[int]chan struct{}{}} }
+func newCtl() *ctl {
+	return &ctl{entered: map[int]int{}, rel: map[int]chan struct{}{}, how: map[int]string{}}
+}
+
+func (c *ctl) setHow(tok int, h string) {
+	c.mu.Lock()
+	c.how[tok] = h
+	c.mu.Unlock()
+}
+
+// How reports why the Slow handler of tok returned ("" while it is still running).
+func (c *ctl) How(tok int) string {
+	c.mu.Lock()
+	defer c.mu.Unlock()
+	return c.how[tok]
+}
 
 func (c *ctl) ch(tok int) chan struct{} {
 	c.mu.Lock()
@@ -97,8 +115,21 @@ func (r *RevH) Slow(ctx context.Context, arg int) (int, error) {
 	r.C.enter(arg)
 	select {
 	case <-r.C.ch(arg):
+		r.C.setHow(arg, "released")
 	case <-ctx.Done():
+		r.C.setHow(arg, "cancelled")
 	case <-time.After(5 * time.Second):
+		r.C.setHow(arg, "timeout")
+	}
+	return ident(r.ID, arg), nil
+}
+
+// Stubborn returns only when released (it ignores its context, as a handler doing a blocking computation would).
+func (r *RevH) Stubborn(ctx context.Context, arg int) (int, error) {
+	r.C.enter(arg)
+	select {
+	case <-r.C.ch(arg):
+	case <-time.After(8 * time.Second):
 	}
 	return ident(r.ID, arg), nil
 }
@@ -270,6 +301,8 @@ func (s *RS) Run(ctx context.Context, sp Spec) (Out, error) {
 			return rc.Missing
 		case "Nest":
 			return rc.Nest
+		case "Stubborn":
+			return rc.Stubborn
 		}
 		return rc.Ident
 	}
@@ -835,6 +868,12 @@ func Run(d *fw.Driver, res *fw.Result, seed int64, thorough bool) error {
 	base += 1000
 	if err := NotifyReverse(res, seed, base); err != nil {
 		return err
+	}
+	for _, k := range []string{"rst", "fin"} {
+		base += 1000
+		if err := StaleAnswer(d, res, seed, k, base); err != nil {
+			return err
+		}
 	}
 	return Absent(d, res, seed)
 }
